@@ -77,4 +77,126 @@ def run(name=""):
 
 
 def known(kid):
-    return False
+    return kid in LOWERINGS and lowering_case(kid)[0] == "differs"
+
+
+# ---------------------------------------------------------------------------
+# bounded: compiled original vs lowered program
+# ---------------------------------------------------------------------------
+C06_DRIVER = '''\
+program main
+  use test_mod, only: run_it
+  implicit none
+  real :: a(10), b(10), c(3,4), d(4,3), e(3,3)
+  integer :: i, j, seed
+  do seed = 1, 3
+    do i = 1, 10
+      a(i) = seed*i - 4.0
+      b(i) = 0.5*i + seed
+    end do
+    do j = 1, 4
+      do i = 1, 3
+        c(i,j) = i - 2.0*j + seed
+        d(j,i) = 0.25*i*j - seed
+      end do
+    end do
+    e = 0.0
+    call run_it(a, b, c, d, e)
+    write(*,'(10(f10.3,1x))') a
+    write(*,'(10(f10.3,1x))') b
+    write(*,'(9(f10.3,1x))') e
+  end do
+end program main
+'''
+
+C06_HEAD = ("module test_mod\n  implicit none\ncontains\n"
+            "  subroutine run_it(a, b, c, d, e)\n"
+            "    real, intent(inout) :: a(10), b(10), c(3,4), d(4,3), "
+            "e(3,3)\n    real :: s\n    integer :: k\n")
+C06_TAIL = "  end subroutine run_it\nend module test_mod\n"
+
+LOWERINGS = {
+    # (statement(s), transformation name, which node class to target)
+    "overlap-shift-up": ("    a(2:10) = a(1:9)\n", "ArrayAssignment2LoopsTrans",
+                         "Assignment"),
+    "overlap-shift-down": ("    a(1:9) = a(2:10)\n",
+                           "ArrayAssignment2LoopsTrans", "Assignment"),
+    "no-overlap": ("    a(1:5) = b(6:10) + a(6:10)\n",
+                   "ArrayAssignment2LoopsTrans", "Assignment"),
+    "scalar-from-same-array": ("    a(:) = a(:) + a(1)\n",
+                               "ArrayAssignment2LoopsTrans", "Assignment"),
+    "rank2-transposed-sections": ("    c(1:3,1) = d(1,1:3)\n",
+                                  "ArrayAssignment2LoopsTrans", "Assignment"),
+    "matmul": ("    e = matmul(c, d)\n", "Matmul2CodeTrans", "IntrinsicCall"),
+    "sum": ("    s = sum(a)\n    b(1) = s\n", "Sum2LoopTrans",
+            "IntrinsicCall"),
+    "maxval": ("    s = maxval(b)\n    a(1) = s\n", "Maxval2LoopTrans",
+               "IntrinsicCall"),
+    "abs": ("    b(2) = abs(a(1))\n", "Abs2CodeTrans", "IntrinsicCall"),
+    "min": ("    b(2) = min(a(1), b(3), 2.0)\n", "Min2CodeTrans",
+            "IntrinsicCall"),
+    "max": ("    b(2) = max(a(1), b(3))\n", "Max2CodeTrans",
+            "IntrinsicCall"),
+    "sign": ("    b(2) = sign(a(1), a(2))\n", "Sign2CodeTrans",
+             "IntrinsicCall"),
+    "dot-product": ("    b(1) = dot_product(a, b)\n", "DotProduct2CodeTrans",
+                    "IntrinsicCall"),
+}
+
+
+def lowering_case(cid):
+    """(verdict, detail, source): refused / equal / differs / norun"""
+    import os
+    import shutil
+    import subprocess
+    import tempfile
+    import psyclone.psyir.transformations as T
+    from psyclone.psyir.backend.fortran import FortranWriter
+    from psyclone.psyir.frontend.fortran import FortranReader
+    from psyclone.psyir import nodes
+    from psyclone.psyir.transformations import TransformationError
+    if not shutil.which("gfortran"):
+        return "norun", "gfortran not found", ""
+    body, tname, cls = LOWERINGS[cid]
+    module = C06_HEAD + body + C06_TAIL
+    psyir = FortranReader().psyir_from_source(module)
+    target = psyir.walk(getattr(nodes, cls))[0]
+    try:
+        getattr(T, tname)().apply(target)
+    except TransformationError as err:
+        return "refused", str(err.value)[-200:], module
+    lowered = FortranWriter()(psyir)
+
+    def build_run(src, workdir, tag):
+        os.mkdir(os.path.join(workdir, tag))
+        f90 = os.path.join(workdir, f"{tag}.f90")
+        exe = os.path.join(workdir, f"{tag}.exe")
+        with open(f90, "w", encoding="utf-8") as fout:
+            fout.write(src + "\n" + C06_DRIVER)
+        r = subprocess.run(["gfortran", "-O0", "-J",
+                            os.path.join(workdir, tag), "-o", exe, f90],
+                           cwd=workdir, capture_output=True, text=True)
+        if r.returncode:
+            return None, r.stderr[-500:]
+        r = subprocess.run([exe], capture_output=True, text=True,
+                           cwd=workdir, timeout=60)
+        return r.stdout, r.stderr[-300:]
+    workdir = tempfile.mkdtemp(prefix="c06_")
+    try:
+        want, err0 = build_run(module, workdir, "orig")
+        if want is None:
+            return "norun", "original does not compile: " + err0, module
+        got, err1 = build_run(lowered, workdir, "low")
+    finally:
+        shutil.rmtree(workdir, ignore_errors=True)
+    if got is None:
+        return "differs", "the lowered module does not compile: " + err1 + \
+            "\n" + lowered, module
+    if got != want:
+        return "differs", "outputs differ after " + tname + ":\n" + lowered, \
+            module
+    return "equal", "", module
+
+
+def lowering_cases():
+    return [(cid,) + lowering_case(cid) for cid in LOWERINGS]
